@@ -241,6 +241,7 @@ EXTRA_SL = [{'op': 'fill_sample', 'inp': []}, {'op': 'fill_sample', 'inp': [[3, 
 C20_INST = {
     'quick': [sl_inst(10, 5, 3, [-2, 0, 3], [0, 10], random=(30, 80), extra_ops=EXTRA_SL),
               sl_inst(100, 1, 3, [5], [100], random=(20, 60), extra_ops=EXTRA_SL),
+              sl_inst(10, 0, 3, [0, 3], [10], random=(10, 40), extra_ops=EXTRA_SL),      # sample size 0: nothing is ever sampled
               sl_inst(7, 2, 5, [-2, 0, 3, 5], [0, 7, 100], random_only=True, random=(30, 150), extra_ops=EXTRA_SL),
               # larger tables: more tracked keys than the sample size several times over (default sample size 5, and 4, 8)
               sl_inst(1000, 5, 16, [-2, 0, 3, 5], [0, 1000], random_only=True, random=(20, 200), extra_ops=EXTRA_SL),
